@@ -734,8 +734,11 @@ def check_filter_case(f, espec, rng=None):
                          filter=text, got=prob))
         node = build_nodes(f)
         prob = None
-    elif prob is not None:
+    elif prob is not None and node is None:
         return None, viol, text, prob
+    # (when the text compiled but the node tree differs from the printed AST, the compiled filter is still judged by the
+    #  statement's clauses below; the tree difference itself is reported by the caller)
+    parse_prob = prob
     o1, x1 = observe(node, entry, True)
     o2, x2 = observe(node, entry, False)
     obs = o1 + " # " + o2
@@ -802,7 +805,7 @@ def check_filter_case(f, espec, rng=None):
             viol.append(dict(base, clause="freezing and thawing a logged message yield an entry equal to the original: the same filter "
                                           "gives the same answer before freeze(), while frozen, and after thawing",
                              **{"class": "frozen-entry-answers-differently"}, filter=text, got="live %s ; frozen %s ; thawed %s" % (o2, o3, o4)))
-    return obs, viol, text, None
+    return obs, viol, text, parse_prob
 
 
 # --------------------------------------------------------------------------
